@@ -2,9 +2,13 @@
 (* The intended virtual machine: instruction semantics of vm.go over frame objects, *)
 (* a context tree for generators and a temp register that is saved across yields.   *)
 (* It executes the bytecode emitted by the REAL compiler (read from ProgramsFile),   *)
-(* statement by statement, and reports value / output / error / residue.            *)
+(* statement by statement, and reports value / output / error / residue: comparing  *)
+(* its observations with CalcSem's is translation validation of the compiler.  If a *)
+(* program carries the per-instruction trace (ip, sp, frames, closures) recorded    *)
+(* from the real VM, each step must be exactly the recorded one (VMDIVERGE names    *)
+(* the first instruction where the real machine cannot be followed).                *)
 EXTENDS CalcValues, TLC, Json
-CONSTANT ProgramsFile
+CONSTANTS ProgramsFile, MaxSteps
 Programs == ndJsonDeserialize(ProgramsFile)
 
 VARIABLES pi, si, ctxs, cur, heap, globals, out, tmp, obs, status, stepno, tk
@@ -228,7 +232,7 @@ NextStmt(o) ==
 
 Step ==
   /\ status = "run" /\ stepno' = stepno + 1 /\ UNCHANGED pi
-  /\ IF stepno > 20000 THEN NextStmt([unspec |-> TRUE, budget |-> TRUE]) /\ UNCHANGED <<heap, globals, tmp>>
+  /\ IF stepno > MaxSteps THEN NextStmt([unspec |-> TRUE, budget |-> TRUE]) /\ UNCHANGED <<heap, globals, tmp>>
      ELSE IF Entries[si] = -1 THEN NextStmt([perr |-> TRUE]) /\ UNCHANGED <<heap, globals, tmp>>
      ELSE IF C.ip >= EndOf(si) THEN
           \* end of Run: the result is popped from the current memory
